@@ -13,6 +13,7 @@ import json
 import os
 import subprocess
 import sys
+import itertools
 import warnings
 
 import numpy as np
@@ -414,12 +415,60 @@ def case_insitu(case):
                    traces=max(1, regions))  # fmt: skip
 
 
+def case_insitu_model(case):
+    """E5 in situ on a model of C14's builtin-model space (kinetics x IRF x add-on x datasets): simulate, then one objective
+    evaluation with all dispatchers instrumented"""
+    from glotaran.optimization.optimizer import Optimizer
+    from glotaran.project import Scheme
+
+    from vf.checks import c14
+    from vf.gen import builtin_models as B
+    from vf.insitu import InSitu
+
+    if case["addon"] == "artifact" and case["irf"] == "none":
+        return core.ood("artifact-needs-irf")
+    md, vals, free, species, extra, ds_labels = c14.build(case)
+    with warnings.catch_warnings():
+        warnings.simplefilter("ignore")
+        model, _, data, _, _ = c14.simulate_all(case, md, vals, species, extra, ds_labels)
+    start = {k: (v * 1.07 if k in free else v) for k, v in vals.items()}
+
+    def penalty():
+        params = B.make_parameters(start, {l: {"vary": False} for l in vals if l not in free})
+        scheme = Scheme(model=model, parameters=params, data=data, maximum_number_function_evaluations=1, add_svd=False)
+        opt = Optimizer(scheme, verbose=False, raise_exception=True)
+        lab, x, _, _ = params.get_label_value_and_bounds_arrays(exclude_non_vary=True)
+        opt._free_parameter_labels = lab
+        with warnings.catch_warnings():
+            warnings.simplefilter("ignore")
+            return np.array(opt.objective_function(x), dtype=float)
+
+    compiled = penalty()
+    with InSitu() as ins:
+        traced = penalty()
+    vs = []
+    regions = iters = 0
+    for name, rep in sorted(ins.reports.items()):
+        regions += rep["regions"]
+        iters += rep["parallel_iterations"]
+        for c in rep["conflicts"]:
+            vs.append(V("parallel-iterations-conflict/in-situ", kernel=name, model=case, **c))
+    scale = max(1.0, float(np.abs(compiled).max()))
+    if traced.shape != compiled.shape or not np.abs(traced - compiled).max() <= 1e-9 * scale:
+        vs.append(V("python-source-and-compiled-kernels-disagree/in-situ", model=case,
+                    max_abs=float(np.abs(traced - compiled).max()) if traced.shape == compiled.shape else None))  # fmt: skip
+    used = sorted(n.rsplit(".", 1)[-1] for n, r in ins.reports.items() if r["outer_calls"])
+    skipped = sorted(n.rsplit(".", 1)[-1] for n, r in ins.reports.items() if r["not_instrumented"])
+    return core.ok(key={k: case[k] for k in ("kinetics", "irf", "addon", "nds")}, outcome={"kernels": used, "not_instrumented": skipped},
+                   violations=vs, states=max(1, regions), transitions=max(1, iters), traces=max(1, regions))  # fmt: skip
+
+
 from vf.checks.c10_kernels import case_kernel  # noqa: E402
 
 WATCHDOG = {"optimize_twice": 90}  # fits can spin inside scipy/numpy on overflowing input (C15 known finding)
 
 CASE_FUNCS = {"histories": case_histories, "history": case_history, "optimize_twice": case_optimize_twice,
-              "kernel": case_kernel, "insitu": case_insitu, "builtin_histories": case_builtin_histories, "builtin_history": case_builtin_history}  # fmt: skip
+              "kernel": case_kernel, "insitu": case_insitu, "insitu_model": case_insitu_model, "builtin_histories": case_builtin_histories, "builtin_history": case_builtin_history}  # fmt: skip
 
 
 def run(run: core.Run):
@@ -443,6 +492,14 @@ def run(run: core.Run):
 
     c10_kernels.run_kernels(run)
     run.map("insitu", [{"scheme": n} for n in BUILTIN_SCHEMES], part="prange-in-situ")
+    models = []
+    for kin, irf, addon in itertools.product(("sequential", "parallel", "decay"), ("none", "gaussian", "multi", "dispersed"),
+                                             ("none", "baseline", "artifact", "oscillation")):  # fmt: skip
+        for nds, coords in ((1, "standard"),) if quick else ((1, "standard"), (2, "nonuniform")):
+            if quick and (kin != "parallel" and addon not in ("none", "oscillation")):
+                continue
+            models.append({"kinetics": kin, "irf": irf, "addon": addon, "mode": "clp", "nds": nds, "scale": nds == 2, "coords": coords, "pset": 0})
+    run.map("insitu_model", models, part="prange-in-situ-models")
     run.rule = (
         "E2: BFS over sequences of objective evaluations (4 parameter vectors + 1 at which the model raises) on a fresh "
         "real Optimizer per history, for every scheme of the t-way feature enumeration; state = deep digest of all "
